@@ -95,16 +95,24 @@ func RunUnit(u *Unit, shard, nshards int, deadline time.Time, boundOverride int)
 	if d := os.Getenv("VERIF_WCACHE"); d != "" && !u.AllVisible {
 		h := fnv.New64a()
 		h.Write([]byte(u.Name))
-		wfile = filepath.Join(d, fmt.Sprintf("%016x.json", h.Sum64()))
-		if b, err := os.ReadFile(wfile); err == nil {
-			var c struct {
-				Unit string   `json:"unit"`
-				W    []uint64 `json:"w"`
-			}
-			if json.Unmarshal(b, &c) == nil && c.Unit == u.Name {
-				e.SetW(c.W)
+		// one file per shard (shards run concurrently); every shard starts from the union
+		wfile = filepath.Join(d, fmt.Sprintf("%016x-%d.json", h.Sum64(), shard))
+		files, _ := filepath.Glob(filepath.Join(d, fmt.Sprintf("%016x-*.json", h.Sum64())))
+		sort.Strings(files)
+		var union []uint64
+		for _, f := range files {
+			if b, err := os.ReadFile(f); err == nil {
+				var c struct {
+					Unit string   `json:"unit"`
+					W    []uint64 `json:"w"`
+				}
+				if json.Unmarshal(b, &c) == nil && c.Unit == u.Name {
+					union = append(union, c.W...)
+				}
 			}
 		}
+		sort.Slice(union, func(i, j int) bool { return union[i] < union[j] })
+		e.SetW(union)
 	}
 	e.Explore()
 	if wfile != "" && os.Getenv("VERIF_WCACHE_RO") == "" && e.HarnessErr == "" && len(e.Violations) == 0 {
